@@ -12,7 +12,7 @@ open MakoModel.Target MakoModel.Codegen
 /-- a call of the render callable of a top-level def that returns normally -/
 theorem invoke_def_val (ts : List (Tmpl × Option Bool)) (k : Nat) (hG : GoodAll ts) (ps : List Name) (fl : DefFlags)
     (body : Tmpl) (hc : fl.cached = false) (hnd : nodupB (declNames body) = true)
-    (hg : Good (defScope body) false (Spec.isBuffering fl) body = true)
+    (hg : Good (defScope body) false (Spec.isBuffering fl) true false body = true)
     (own : Bool) (mod : Nat) (clex : NS) (vs : List Str) (l : Loc) (σ : St) (E : Spec.Env) (pend : Spec.SNS) (i : Nat)
     (top : Str) (rest : List (Nat × Str)) (hR : RelW l σ E) (hN : NSRel σ.next pend) (hl : LocOK l) (hlex : NSOK clex)
     (hσ : StOK σ) (hb : σ.bufs = (i, top) :: rest) (n : Nat) (v : Str) (σ' : St)
@@ -50,8 +50,8 @@ theorem invoke_def_val (ts : List (Tmpl × Option Bool)) (k : Nat) (hG : GoodAll
 
 /-- `capture(f, args)` that returns normally -/
 theorem capture_val (ts : List (Tmpl × Option Bool)) (k : Nat) (hG : GoodAll ts) (f : Name) (args : List Expr)
-    (il ce : Bool) (l : Loc) (σ : St) (E : Spec.Env) (pend : Spec.SNS) (i : Nat) (top : Str) (rest : List (Nat × Str))
-    (hg : GoodE il ce (.capture f args) = true) (hR : RelC l σ E) (hN : NSRel σ.next pend)
+    (il ce cv : Bool) (l : Loc) (σ : St) (E : Spec.Env) (pend : Spec.SNS) (i : Nat) (top : Str) (rest : List (Nat × Str))
+    (hg : GoodE il ce cv (.capture f args) = true) (hR : RelC cv l σ E) (hN : NSRel σ.next pend)
     (hce : ce = false → σ.next = []) (hil : il = true → E.loops ≠ []) (hl : LocOK l) (hσ : StOK σ)
     (hb : σ.bufs = (i, top) :: rest) (n : Nat) (v : Str) (σ' : St)
     (he : eval (progOf ts k) n (.capture f args) l σ = (.val v, σ')) :
@@ -59,7 +59,7 @@ theorem capture_val (ts : List (Tmpl × Option Bool)) (k : Nat) (hG : GoodAll ts
       ∃ sf m0, Spec.resolveS ⟨ts, k⟩ E f = some sf ∧ ∀ m, m0 ≤ m → ∃ vs c1 v0,
         Spec.sargs ⟨ts, k⟩ m args E pend σ.cnt = ⟨.vals vs, oargs, c1⟩ ∧
         Spec.sinvoke ⟨ts, k⟩ m sf [] vs { E with nb := E.nb + 1 } pend c1 = ⟨.val v0, v, σ'.cnt⟩ := by
-  obtain ⟨out, hb', p, m0, e0⟩ := (rc_all ts k hG n).eval _ il ce l σ E pend i top rest (.val v) σ' hg hR hN hce hil hl hσ hb
+  obtain ⟨out, hb', p, m0, e0⟩ := (rc_all ts k hG n).eval _ il ce cv l σ E pend i top rest (.val v) σ' hg hR hN hce hil hl hσ hb
     he (by simp)
   refine ⟨out, hb', p, ?_⟩
   have h1 := e0 (m0 + 1) (by omega)
@@ -92,7 +92,7 @@ theorem capture_val (ts : List (Tmpl × Option Bool)) (k : Nat) (hG : GoodAll ts
     the stacks are afterwards as before, so it can be evaluated again -/
 theorem caller_body_val (ts : List (Tmpl × Option Bool)) (k : Nat) (hG : GoodAll ts) (args : List Expr)
     (il : Bool) (l : Loc) (σ : St) (E : Spec.Env) (i : Nat) (top : Str) (rest : List (Nat × Str))
-    (hg : GoodE il false (.callerCall 0 args) = true) (hR : RelC l σ E) (hn : σ.next = [])
+    (hg : GoodE il false true (.callerCall 0 args) = true) (hR : RelC true l σ E) (hn : σ.next = [])
     (hil : il = true → E.loops ≠ []) (hl : LocOK l) (hσ : StOK σ) (hb : σ.bufs = (i, top) :: rest)
     (bargs : List Name) (body : Tmpl) (bmod : Nat) (more : Spec.SLayer) (outer : Spec.SNS)
     (hE : E.caller = ((0, ⟨bargs, noFlags, body, .body, bmod⟩) :: more) :: outer)
@@ -103,7 +103,7 @@ theorem caller_body_val (ts : List (Tmpl × Option Bool)) (k : Nat) (hG : GoodAl
       Spec.sinvoke ⟨ts, k⟩ m ⟨bargs, noFlags, body, .body, bmod⟩ outer vs
         { E with defs := ((0, ⟨bargs, noFlags, body, .body, bmod⟩) :: more) ++ E.defs } [] c1 = ⟨.val v, obody, σ'.cnt⟩ ∧
       out = oargs ++ obody := by
-  obtain ⟨out, hb', p, m0, e0⟩ := (rc_all ts k hG n).eval _ il false l σ E [] i top rest (.val v) σ' hg hR
+  obtain ⟨out, hb', p, m0, e0⟩ := (rc_all ts k hG n).eval _ il false true l σ E [] i top rest (.val v) σ' hg hR
     (by rw [hn]; exact NSRel.nil) (fun _ => hn) hil hl hσ hb he (by simp)
   refine ⟨out, hb', p, m0, fun m hm => ?_⟩
   have h2 := e0 (m + 1) (by omega)
